@@ -3,7 +3,7 @@
 META = {
     "level": "model_checking",
     "technique": "TLA+ transcription of GenericRateLimiter model-checked (window law, idle-accept, canary); traces of the real boxed limiters validated by TLC against the property-level token-bucket trace spec",
-    "text": "TLC exhaustively checks the transcribed refill-schedule algorithm (2 identities, limit/interval 2..3, bounded time) for the window law and idle-accept, and rejects a canary; every try_next result of the real per-peer and per-IP limiters, on all op sequences up to length 4-5 over a small alphabet plus seeded random schedules, is validated by TLC against the property-level spec (acceptance histories must satisfy the window law; a refusal is illegal once idle for limit*interval).",
+    "text": "TLC exhaustively checks the transcribed refill-schedule algorithm (2 identities, limit 2 / interval 2 / 8 time units: 0.9 M states; thorough also limit 3: 10.7 M states) for the window law and idle-accept, and rejects a canary; every try_next result of the real per-peer and per-IP limiters, on all op sequences up to length 4-5 over a small alphabet plus seeded random schedules, is validated by TLC against the property-level spec (acceptance histories must satisfy the window law; a refusal is illegal once idle for limit*interval).",
     "note": "Synthetic non-decreasing instants; per-IP limiter exercised only with addresses that contain an IP.",
     "design_ref": "6/C48",
 }
